@@ -187,9 +187,15 @@ def rule_text(ctx, F):
             if not (s[0] == "field" and s[1][0] == "variant" and s[1][2] == "Ok"):
                 return False
             cc = P.strip(s[1][1])
-            if not (cc[0] == "call" and cc[1] == f"<{CARD} as std::str::FromStr>::from_str"):
+            is_parse = cc[0] == "call" and cc[1] == "core::str::<impl str>::parse" and len(cc) > 3 and \
+                CARD in (fs.blocks[cc[3]]["term"]["callee"].get("generic_args") or [])      # str::parse::<Card>() forwards to FromStr
+            if not (cc[0] == "call" and (cc[1] == f"<{CARD} as std::str::FromStr>::from_str" or is_parse)):
                 return False
             sl = P.strip(cc[2][0])
+            if sl[0] == "field" and P.strip(sl[1], calls=False)[0] == "call" and P.strip(sl[1], calls=False)[1].endswith("<impl str>::split_at"):
+                # value.split_at(2) under len == 4: .0 = value[0..2], .1 = value[2..4]
+                sa = P.strip(sl[1], calls=False)
+                return P.strip(sa[2][0]) == ("param", 1) and P.const_int(sa[2][1]) == 2 and (lo, hi) == ((0, 2) if sl[2] == 0 else (2, 4))
             if not (sl[0] == "call" and sl[1].endswith("::index") and P.strip(sl[2][0]) == ("param", 1)):
                 return False
             r = P.strip(sl[2][1])
